@@ -475,6 +475,9 @@ def evaluate__max_min_functions(self: XPathFunction, context: ta.ContextType = N
     def max_or_min() -> ta.OneOrEmpty[AtomicType]:
         if not values:
             return []
+        elif any(isinstance(x, bool) for x in values) and \
+                not all(isinstance(x, bool) for x in values):
+            raise self.error('FORG0006', "cannot compare booleans with other types")
         elif all(isinstance(x, str) for x in values):
             if to_any_uri:
                 return AnyURI(aggregate_func(
